@@ -66,7 +66,8 @@ def run(tier, seed):
                  "was recorded, for the same header object; the file-creation wrapper receives -1 exactly when the flag is clear; a file's time is set only "
                  "after a successful decode; a directory is created 0700 when permissions are recorded; and inside the arch layer the libc calls receive "
                  "those parameters in the right positions (utime with actime = modtime = timestamp, chown(uid, gid), fchown before fchmod on the descriptor "
-                 "just opened). Decides these necessary conditions for all archives; does not decide contents, path construction, metadata order relative "
+                 "just opened). Also: a mode may be masked only with a mask keeping all of 07777; the MacBinary envelope is recognised only for length >= 128, version 0 and a name equal to the member's over exactly its length (R7/R7b); "
+                 "the wildcard matcher conforms to the glob transducer (R8, E9); the reader's advance rules of C15 run here too. Decides these necessary conditions for all archives; does not decide contents, path construction, metadata order relative "
                  "to children, wildcards, overwrite policy or the print command.")
     with Context(tier) as ctx:
         from .. import selfcheck
